@@ -209,6 +209,16 @@ func runC12(r *rt.Runner) {
 				le := []string{"\n", "\r", "\r\n"}[rng.IntN(3)]
 				parts = append(parts[:pos], append([]string{le + "%%Title: multi call" + le + "%%+ continued" + le}, parts[pos:]...)...)
 			}
+			if rng.IntN(40) == 0 {
+				// more than a thousand structured comments in one program
+				pos := rng.IntN(len(parts) + 1)
+				var many []string
+				for i, n := 0, 1001+rng.IntN(300); i < n; i++ {
+					many = append(many, fmt.Sprintf("\n%%%%K%d: %d\n", i, i))
+				}
+				parts = append(parts[:pos], append(many, parts[pos:]...)...)
+				c.Count("multi-call programs with more than 1000 structured comments")
+			}
 			if rng.IntN(4) == 0 {
 				// the empty name literal: a lone slash is a complete token
 				pos := rng.IntN(len(parts) + 1)
